@@ -1,5 +1,5 @@
 import Driver.Codec
-import GarbleVerif.Model.Requests
+import GarbleVerif.Model.PanicReqs
 open Lean
 namespace GVD
 open GV
@@ -46,5 +46,29 @@ def builderRun (case : Json) : Json :=
   let v := match circuit.validate with | .ok () => "ok" | .error e => ssaErr e
   Json.mkObj [("shift", toJson b.shift), ("gates", bgatesToJson b.gates), ("results", toJson rs),
     ("circuit", ssaToJson circuit), ("validate", v), ("evals", toJson lits)]
+
+def preqFromJson (j : Json) : Option PReq :=
+  let a := getNat (idx j 1); let b := getNat (idx j 2); let c := getNat (idx j 3)
+  match getStr (idx j 0) with
+  | "panic_if" => some (.panicIf a b c (getNat (idx j 4)) (getNat (idx j 5)) (getNat (idx j 6)))
+  | "snapshot" => some .snapshot
+  | "restore" => some (.restore a)
+  | "mux_panic" => some (.mux a b c)
+  | "install_mux" => some (.installMux a b c)
+  | _ => (reqFromJson j).map PReq.gate
+
+def panicRun (case : Json) : Json :=
+  let sizes := natList (field case "input_gates")
+  let cache := ((field case "cache").getBool?).toOption.getD true
+  let reqs := (getArr (field case "reqs")).filterMap preqFromJson
+  let outs := natList (field case "outs")
+  let st := PReq.run sizes cache reqs
+  let circuit := PReq.compile sizes cache reqs outs
+  let n := sizes.sum
+  let evals : List String :=
+    if n > 10 then [] else
+    (List.range (2 ^ n)).map fun a => match circuit.eval? (assignment sizes a) with | some bs => bitsToString bs | none => "panic"
+  Json.mkObj [("shift", toJson st.b.shift), ("gates", bgatesToJson st.b.gates), ("results", toJson st.rs),
+    ("circuit", ssaToJson circuit), ("evals", toJson evals)]
 
 end GVD
